@@ -52,6 +52,16 @@ def run(ctx):
         def per_bin(b, progs, r):
             for p in progs:
                 monitors(ctx, r, p, n)
+                if p.get("generics"):
+                    # every instance the generated code built with `new()` while the monitors ran is the caller's instantiation
+                    ref = r.call({"prog": p["name"], "op": "typename"})["res"]["ok"]
+                    seen = sorted(r.new_types.get(p["name"], ()))
+                    ctx.ev()
+                    if seen and seen != [ref]:
+                        ctx.violate("contract-instantiation", f"{p['name']}: generated code ran handlers on {[x for x in seen if x != ref][:2]} instead of the caller's {ref}",
+                                    {"prog": p["name"], "expected": ref, "constructed": seen})
+                    elif seen:
+                        ctx.count("programs_with_instantiation_checked")
             twins = [p for p in progs if p["name"] in ("nm_param_900", "nm_paramt_900")]
             if len(twins) == 2:
                 spelling_twins(ctx, r, b, twins)
